@@ -931,7 +931,7 @@ class Engine:
             fr.locals["_seq%d" % ordn] = seq
         # 1. invariant holds on entry
         for i, inv in enumerate(spec.get("invariant", [])):
-            self.oblige("%s.inv_init[%d]" % (label, i), self.truth(self.eval_str(inv, fr)), kind="loop-init", site=st.lineno, note=inv)
+            self.oblige("%s.inv_init[%d]" % (label, i), self.eval_merged(lambda inv=inv: self.truth(self.eval_str(inv, fr))), kind="loop-init", site=st.lineno, note=inv)
         # 2. havoc what the loop may modify
         targets = _assigned_names(st)
         for name in spec.get("havoc", []):
@@ -948,7 +948,10 @@ class Engine:
                     else:
                         continue
                 pre[name] = cur
-                obj.fields[f] = self.fresh_like(cur, "%s_%s" % (label, f))
+                if isinstance(obj, VObj) and f in obj.fieldty and not obj.fieldty[f].startswith(("maybe:", "ghost:")):
+                    obj.fields[f] = self.fresh(obj.fieldty[f], "%s_%s" % (label, f))
+                else:
+                    obj.fields[f] = self.fresh_like(cur, "%s_%s" % (label, f))
             elif "." in name:
                 base, f = name.split(".", 1)
                 obj = fr.locals.get(base)
@@ -972,7 +975,7 @@ class Engine:
             fr.locals[idxname] = VInt(k)
         # 3. assume invariant
         for inv in spec.get("invariant", []):
-            self.assume(self.truth(self.eval_str(inv, fr)))
+            self.assume(self.eval_merged(lambda inv=inv: self.truth(self.eval_str(inv, fr))))
         dec0 = None
         if spec.get("decreases"):
             dec0 = self.eval_str(spec["decreases"], fr)
@@ -998,7 +1001,7 @@ class Engine:
                 if kind == "for":
                     fr.locals[idxname] = VInt(fr.locals[idxname].z + 1)
                 for i, inv in enumerate(spec.get("invariant", [])):
-                    self.oblige("%s.inv_preserved[%d]" % (label, i), self.truth(self.eval_str(inv, fr)), kind="loop-step", site=st.lineno, note=inv)
+                    self.oblige("%s.inv_preserved[%d]" % (label, i), self.eval_merged(lambda inv=inv: self.truth(self.eval_str(inv, fr))), kind="loop-step", site=st.lineno, note=inv)
                 if dec0 is not None:
                     dec1 = self.eval_str(spec["decreases"], fr)
                     self.oblige("%s.decreases" % label, z3.And(zint(dec0.z) >= 0, zint(dec1.z) < zint(dec0.z)), kind="termination", site=st.lineno, note=spec["decreases"])
@@ -1369,6 +1372,8 @@ class Engine:
 
     def dict_has(self, d, k):
         k = self.force(k)
+        if k is NONE:
+            return False
         if not isinstance(k, (VStr, VInt)):
             raise OutOfSubset("dict key %r" % (k,))
         alts = []
@@ -1389,6 +1394,10 @@ class Engine:
     def dict_get(self, d, k, node=None, default=None):
         """d[k] (default None -> KeyError) with case split on concrete keys."""
         k = self.force(k)
+        if k is NONE:
+            if default is not None:
+                return default
+            self.raise_("KeyError", site=getattr(node, "lineno", None))
         if not isinstance(k, (VStr, VInt)):
             raise OutOfSubset("dict key %r" % (k,))
         for (ok, v) in reversed(d.overrides):
